@@ -65,13 +65,27 @@ theorem zero_padded_bridge (fuel num w : Nat) (hf : 20 ≤ fuel) (hn : num < U64
   simp only [zeroPadded]
   have e : (1 : Int) + (ndig num : Int) - 1 = (ndig num : Int) := by omega
   simp only [e]
-  by_cases hc : w > ndig num
-  · have hc' : (w : Int) > (ndig num : Int) := by omega
-    have hr : -2147483648 ≤ (w : Int) - (ndig num : Int) ∧ (w : Int) - (ndig num : Int) ≤ 2147483647 := by omega
+  have hr : -2147483648 ≤ (w : Int) - (ndig num : Int) ∧ (w : Int) - (ndig num : Int) ≤ 2147483647 := by omega
+  -- three cases, each with the facts either spelling of the comparison (`>`, `<`, `>=`, `<=`) needs
+  rcases Nat.lt_trichotomy w (ndig num) with hlt | heq | hgt
+  · have a1 : ¬ (w : Int) > (ndig num : Int) := by omega
+    have a2 : ¬ (w : Int) ≥ (ndig num : Int) := by omega
+    have a3 : ¬ (ndig num : Int) < (w : Int) := by omega
+    have a4 : ¬ (ndig num : Int) ≤ (w : Int) := by omega
+    have a5 : ¬ w > ndig num := by omega
+    simp [a1, a2, a3, a4, a5, hr]
+  · have a1 : ¬ (w : Int) > (ndig num : Int) := by omega
+    have a3 : ¬ (ndig num : Int) < (w : Int) := by omega
+    have a5 : ¬ w > ndig num := by omega
+    have a6 : (w : Int) - (ndig num : Int) = 0 := by omega
+    simp [a1, a3, a5, a6, hr]
+  · have a1 : (w : Int) > (ndig num : Int) := by omega
+    have a2 : (w : Int) ≥ (ndig num : Int) := by omega
+    have a3 : (ndig num : Int) < (w : Int) := by omega
+    have a4 : (ndig num : Int) ≤ (w : Int) := by omega
+    have a5 : w > ndig num := by omega
     have e2 : ((w - ndig num : Nat) : Int) = (w : Int) - (ndig num : Int) := by omega
-    simp [hc, hc', hr, e2]
-  · have hc' : ¬ (w : Int) > (ndig num : Int) := by omega
-    simp [hc, hc']
+    simp [a1, a2, a3, a4, a5, hr, e2]
 
 /-- negative widths (never produced by the parser, but inside the C range): no padding -/
 theorem zero_padded_neg (fuel num : Nat) (w : Int) (hf : 20 ≤ fuel) (hn : num < U64)
@@ -82,8 +96,13 @@ theorem zero_padded_neg (fuel num : Nat) (w : Int) (hf : 20 ≤ fuel) (hn : num 
   unfold _zero_padded
   simp only
   rw [zero_padded_loop fuel fuel num 1 (by omega) (by omega) (by omega)]
-  have hc' : ¬ w > (1 : Int) + (ndig num : Int) - 1 := by omega
-  simp [hc']
+  have e : (1 : Int) + (ndig num : Int) - 1 = (ndig num : Int) := by omega
+  simp only [e]
+  have a1 : ¬ w > (ndig num : Int) := by omega
+  have a2 : ¬ w ≥ (ndig num : Int) := by omega
+  have a3 : ¬ (ndig num : Int) < w := by omega
+  have a4 : ¬ (ndig num : Int) ≤ w := by omega
+  simp [a1, a2, a3, a4]
 
 /-! ### `_width_equiv` -/
 
